@@ -15,18 +15,21 @@ import (
 // Strategy is the seeded "strategy program" of the adversary: which templates
 // are active and how aggressively they are used (DESIGN.md appendix A.3).
 type Strategy struct {
-	Equivocate bool    // S1: sign several values per slot, split by destination group
-	Forge      bool    // S2: aggregate observed+own signatures, send strongest follow-up to subsets
-	Misplace   bool    // S3: attach valid aggregates where the rules forbid them / mutate fields
-	Foreign    bool    // S6: well-formed chains extending nobody's input, other base
-	Replay     bool    // stale replays / spam of old messages
-	Split      bool    // directed split: X-votes to group A only, Y-votes to group B only
-	ActProb    float64 // probability to act on an opportunity
-	MaxSends   int
+	Equivocate  bool    // S1: sign several values per slot, split by destination group
+	Forge       bool    // S2: aggregate observed+own signatures, send strongest follow-up to subsets
+	Misplace    bool    // S3: attach valid aggregates where the rules forbid them / mutate fields
+	Foreign     bool    // S6: well-formed chains extending nobody's input, other base
+	Replay      bool    // stale replays / spam of old messages
+	Split       bool    // directed split: X-votes to group A only, Y-votes to group B only
+	Impersonate bool    // S7: votes in the name of other members with junk signatures, delivered twice
+	FastLinks   bool    // adversary-to-honest links are not subject to the scheduler latency class
+	Disciplined bool    // never leak a camp\'s value to the other camp: follow-ups only towards the camp that voted for the value; no replays
+	ActProb     float64 // probability to act on an opportunity
+	MaxSends    int
 }
 
 func (s Strategy) String() string {
-	return fmt.Sprintf("equiv=%v forge=%v misplace=%v foreign=%v replay=%v split=%v p=%.2f", s.Equivocate, s.Forge, s.Misplace, s.Foreign, s.Replay, s.Split, s.ActProb)
+	return fmt.Sprintf("equiv=%v forge=%v misplace=%v foreign=%v replay=%v split=%v impersonate=%v p=%.2f", s.Equivocate, s.Forge, s.Misplace, s.Foreign, s.Replay, s.Split, s.Impersonate, s.ActProb)
 }
 
 func genStrategy(rng *rand.Rand, sc *Scenario) Strategy {
@@ -38,6 +41,9 @@ func genStrategy(rng *rand.Rand, sc *Scenario) Strategy {
 	s.Foreign = rng.Intn(3) == 0
 	s.Replay = rng.Intn(4) == 0
 	s.Split = rng.Intn(2) == 0
+	s.Impersonate = rng.Intn(3) == 0
+	s.FastLinks = rng.Intn(3) == 0
+	s.Disciplined = s.Split && rng.Intn(3) == 0
 	return s
 }
 
@@ -53,23 +59,25 @@ type Adversary struct {
 	own []int // member indices of kind Byz
 	st  Strategy
 
-	pool   map[poolKey]map[gpbft.ActorID][]byte
-	chains map[gpbft.ECChainKey]*gpbft.ECChain
-	values map[uint64][]*gpbft.ECChain // per instance: live values seen
-	justs  map[poolKey]*gpbft.Justification
-	sentTo map[string]bool
-	old    []*gpbft.GMessage
+	pool         map[poolKey]map[gpbft.ActorID][]byte
+	chains       map[gpbft.ECChainKey]*gpbft.ECChain
+	values       map[uint64][]*gpbft.ECChain // per instance: live values seen
+	justs        map[poolKey]*gpbft.Justification
+	sentTo       map[string]bool
+	old          []*gpbft.GMessage
+	impersonated map[uint64]bool
+	camp         map[gpbft.ECChainKey]int // value -> 1 (group A) / 2 (group B): camp of the first honest member that voted for it
 
 	Sent, accepted, rejected int
-	PerTemplate             map[string]int
-	signer                  *vsig.Signer
+	PerTemplate              map[string]int
+	signer                   *vsig.Signer
 }
 
 func newAdversary(w *World) *Adversary {
 	a := &Adversary{w: w, rng: rand.New(rand.NewSource(w.Sc.Seed ^ 0xbad)), st: w.Sc.Strategy,
 		pool: map[poolKey]map[gpbft.ActorID][]byte{}, chains: map[gpbft.ECChainKey]*gpbft.ECChain{},
 		values: map[uint64][]*gpbft.ECChain{}, justs: map[poolKey]*gpbft.Justification{}, sentTo: map[string]bool{},
-		PerTemplate: map[string]int{}}
+		PerTemplate: map[string]int{}, impersonated: map[uint64]bool{}, camp: map[gpbft.ECChainKey]int{}}
 	var keys []gpbft.PubKey
 	for i, m := range w.Sc.Members {
 		if m.Kind == Byz {
@@ -126,13 +134,21 @@ func (a *Adversary) observe(from int, msg *gpbft.GMessage) {
 	if len(a.old) < 512 {
 		a.old = append(a.old, msg)
 	}
+	if from >= 0 && a.w.Sc.Members[from].Kind == Honest && !v.Value.IsZero() {
+		if _, ok := a.camp[key]; !ok {
+			a.camp[key] = 2
+			if a.w.groupOf(from) {
+				a.camp[key] = 1
+			}
+		}
+	}
 	if len(a.own) == 0 || a.silentNow() || a.Sent >= a.st.MaxSends {
 		return
 	}
 	if a.st.Forge {
 		a.tryForge(pk)
 	}
-	a.react(msg)
+	a.react(from, msg)
 }
 
 // tryForge aggregates observed plus own signatures for a slot once they reach a strong quorum.
@@ -174,8 +190,13 @@ func (a *Adversary) tryForge(pk poolKey) *gpbft.Justification {
 		sigs[idx] = vsig.RawSign(m.Key, toSign)
 		power += t.PT.ScaledPower[idx]
 	}
+	if 2*power <= t.PT.ScaledTotal {
+		return nil // not even a majority: not worth trying
+	}
 	if 3*power < 2*t.PT.ScaledTotal {
-		return nil
+		// below two thirds: a correct validator rejects this aggregate; it is sent anyway so that a
+		// weakened threshold anywhere (tally, validator, certificate check) turns into an attack
+		a.PerTemplate["forged-justifications-below-quorum"]++
 	}
 	idxs := make([]int, 0, len(sigs))
 	for i := range sigs {
@@ -448,23 +469,36 @@ func (a *Adversary) vote(tmpl string, mi int, inst, round uint64, phase gpbft.Ph
 }
 
 // react is the strategy program: called on every observed honest/shadow message.
-func (a *Adversary) react(m *gpbft.GMessage) {
+func (a *Adversary) react(from int, m *gpbft.GMessage) {
 	st := a.st
 	v := m.Vote
 	ga, gb := a.groups()
+	if st.Impersonate && !a.impersonated[v.Instance] {
+		a.impersonated[v.Instance] = true
+		a.impersonate(v.Instance)
+	}
 	for _, mi := range a.own {
 		if a.rng.Float64() > st.ActProb {
 			continue
 		}
 		delay := time.Duration(a.rng.Int63n(int64(2*a.w.delta()) + 1))
+		if st.FastLinks {
+			delay = time.Duration(a.rng.Int63n(int64(a.w.delta()/50) + 1))
+		}
 		// S1: same slot, several values
 		if st.Equivocate {
 			x := v.Value
 			y := a.altValue(v.Instance, x)
 			if st.Split && len(ga) > 0 && len(gb) > 0 {
-				a.vote("S1-split", mi, v.Instance, v.Round, v.Phase, x, ga, delay)
-				if y != nil || v.Phase == gpbft.COMMIT_PHASE || v.Phase == gpbft.PREPARE_PHASE {
-					a.vote("S1-split", mi, v.Instance, v.Round, v.Phase, y, gb, delay)
+				// tell each camp what it wants to hear: support the observed value towards the
+				// sender's own camp; the other camp's own messages trigger the mirror-image vote
+				own, other := gb, ga
+				if from >= 0 && a.w.groupOf(from) {
+					own, other = ga, gb
+				}
+				a.vote("S1-split", mi, v.Instance, v.Round, v.Phase, x, own, delay)
+				if a.rng.Intn(4) == 0 && (y != nil || v.Phase == gpbft.COMMIT_PHASE || v.Phase == gpbft.PREPARE_PHASE) {
+					a.vote("S1-split", mi, v.Instance, v.Round, v.Phase, y, other, delay)
 				}
 			} else {
 				a.vote("S1-equivocate", mi, v.Instance, v.Round, v.Phase, x, a.randomSubset(), delay)
@@ -485,7 +519,7 @@ func (a *Adversary) react(m *gpbft.GMessage) {
 			a.followUps(mi, v.Instance, v.Round, delay)
 		}
 		// S6: foreign values
-		if st.Foreign && a.rng.Intn(3) == 0 {
+		if st.Foreign && !st.Disciplined && a.rng.Intn(3) == 0 {
 			f := a.foreignChain(v.Instance, a.rng.Intn(3) == 0)
 			if f != nil {
 				ph := []gpbft.Phase{gpbft.QUALITY_PHASE, gpbft.PREPARE_PHASE, gpbft.CONVERGE_PHASE, gpbft.COMMIT_PHASE}[a.rng.Intn(4)]
@@ -503,7 +537,18 @@ func (a *Adversary) react(m *gpbft.GMessage) {
 }
 
 func (a *Adversary) followUps(mi int, inst, round uint64, delay time.Duration) {
+	var campOf *gpbft.ECChain
 	subset := func() []int {
+		if a.st.Disciplined && campOf != nil {
+			ga, gb := a.groups()
+			switch a.camp[campOf.Key()] {
+			case 1:
+				return ga
+			case 2:
+				return gb
+			}
+			return nil
+		}
 		if a.rng.Intn(2) == 0 {
 			al := a.all()
 			if len(al) == 0 {
@@ -515,6 +560,7 @@ func (a *Adversary) followUps(mi int, inst, round uint64, delay time.Duration) {
 	}
 	for _, val := range a.values[inst] {
 		key := val.Key()
+		campOf = val
 		for r := round; r+1 >= round && r <= round+1; r++ {
 			if a.justs[poolKey{inst, r, gpbft.PREPARE_PHASE, key}] != nil {
 				a.vote("S2-commit-from-prepare", mi, inst, r, gpbft.COMMIT_PHASE, val, subset(), delay)
@@ -539,6 +585,7 @@ func (a *Adversary) followUps(mi int, inst, round uint64, delay time.Duration) {
 					val = f
 				}
 			}
+			campOf = val
 			if val != nil {
 				a.vote("S5-converge-any", mi, inst, r+1, gpbft.CONVERGE_PHASE, val, subset(), delay)
 				a.vote("S5-prepare-any", mi, inst, r+1, gpbft.PREPARE_PHASE, val, subset(), delay)
@@ -552,7 +599,7 @@ func (a *Adversary) tick() {
 		return
 	}
 	w := a.w
-	if a.st.Replay && len(a.old) > 0 {
+	if a.st.Replay && !a.st.Disciplined && len(a.old) > 0 {
 		for n := 0; n < 3; n++ {
 			m := a.old[a.rng.Intn(len(a.old))]
 			a.PerTemplate["replay"]++
@@ -607,5 +654,58 @@ func (a *Adversary) onShadowEmit(h *host, msg *gpbft.GMessage, rebroadcast bool)
 			extra = time.Duration(a.rng.Int63n(int64(6*w.delta()) + 1))
 		}
 		w.send(h.i, to, msg, true, extra)
+	}
+}
+
+// impersonate (S7): DECIDE / COMMIT / PREPARE votes in the name of EVERY committee member for a
+// value of the adversary's choice, with junk signatures and a junk justification, delivered to
+// one victim several times. A correct validator rejects every copy; a validator that lets a
+// second presentation through (or skips a signature check) lets the victim decide alone.
+func (a *Adversary) impersonate(inst uint64) {
+	w := a.w
+	t := w.Table(inst)
+	if t == nil || w.inputs[inst] == nil {
+		return
+	}
+	hon := w.HonestIdx()
+	if len(hon) == 0 {
+		return
+	}
+	victim := hon[a.rng.Intn(len(hon))]
+	// a value the victim's peers are unlikely to decide
+	var y *gpbft.ECChain
+	if in := w.inputs[inst][victim]; in != nil {
+		y = in.BaseChain().Extend([]byte(fmt.Sprintf("impersonated-%d-kkkkkkkkkkkkkkkkkkkkkkkk", inst)))
+		y.TipSets[1].PowerTable = in.Base().PowerTable
+	}
+	if y == nil {
+		return
+	}
+	junk := func(n int) []byte { b := make([]byte, n); a.rng.Read(b); return b }
+	var all []int
+	for i := range t.Entries {
+		all = append(all, i)
+	}
+	u := make([]uint64, len(all))
+	for i := range all {
+		u[i] = uint64(i)
+	}
+	ri, _ := rlepluslazy.RunsFromSlice(u)
+	bf, _ := bitfield.NewFromIter(ri)
+	sd := w.SuppData(inst)
+	for _, ph := range []gpbft.Phase{gpbft.DECIDE_PHASE, gpbft.COMMIT_PHASE} {
+		jp := gpbft.Payload{Instance: inst, Round: 0, Phase: gpbft.COMMIT_PHASE, SupplementalData: sd, Value: y}
+		if ph == gpbft.COMMIT_PHASE {
+			jp.Phase = gpbft.PREPARE_PHASE
+		}
+		for _, e := range t.Entries {
+			msg := &gpbft.GMessage{Sender: e.ID, Vote: gpbft.Payload{Instance: inst, Round: 0, Phase: ph, SupplementalData: sd, Value: y},
+				Signature: junk(96), Justification: &gpbft.Justification{Vote: jp, Signers: bf, Signature: junk(96)}}
+			a.PerTemplate["S7-impersonate"]++
+			a.Sent++
+			for rep := 0; rep < 3; rep++ {
+				w.Inject(-1, msg, []int{victim}, time.Duration(rep)*w.delta()/4)
+			}
+		}
 	}
 }
